@@ -236,10 +236,27 @@ func genC18(e *emitter, tier string, seed int64) {
 	if tier == "thorough" {
 		N = 100000
 	}
+	// block-local names: a name first assigned in a loop body or an if block does not exist in the
+	// next pass / after the block (reading it is the v2 "not defined" error)
+	for _, src := range []string{
+		"for i = 0; i < 3; i = i + 1 {\n  if i == 1 {\n    p(\"stale\", t)\n  }\n  t = i\n}\np(\"end\")\n",
+		"for i = 0; i < 2; i = i + 1 {\n  t = 1\n}\np(t)\n",
+		"for i = 0; i < 3 && u == 0; i = i + 1 {\n  u = 0\n}\n",
+		"for i = 0; i < 3; i = i + w {\n  w = 1\n}\n",
+		"for x in [1, 2, 3] {\n  if x == 2 {\n    p(\"stale\", u)\n  }\n  u = x\n}\n",
+		"if true {\n  w = 1\n}\np(w)\n",
+		"if false {\n} else {\n  w = 1\n  if true {\n    w = 2\n    z = 3\n  }\n  p(w)\n  p(z)\n}\n",
+		"t = 5\nfor i = 0; i < 2; i = i + 1 {\n  p(t)\n  t = i\n  v = i\n}\np(t)\np(v)\n",
+	} {
+		emitV2(e, src, 3000, "scopes")
+	}
 	for i := 0; i < N; i++ {
 		g := newPG(rng)
 		g.allowBuilt = false
 		g.v2 = true
+		if i%3 == 0 {
+			g.locals = []string{"u", "w"}
+		}
 		g.keys = []string{"s", "n", "x"}
 		g.maxDepth = 1 + rng.Intn(3)
 		src := g.program(1 + rng.Intn(4))
